@@ -96,7 +96,13 @@ def _flag_names(stmts, descend_loops):
                         if isinstance(n, ast.Name) and isinstance(n.ctx, ast.Store):
                             vals.setdefault(n.id, []).append(None)
     rec(stmts)
-    return {n for n, vs in vals.items() if all(v is not None for v in vs) and any(_boolform(v) for v in vs)}
+    returned = set()
+    if _OPT['bool_returns']:
+        for st in stmts:
+            for n in ast.walk(st):
+                if isinstance(n, ast.Return) and isinstance(n.value, ast.Name):
+                    returned.add(n.value.id)
+    return {n for n, vs in vals.items() if all(v is not None for v in vs) and (any(_boolform(v) for v in vs) or n in returned)}
 
 
 class _Env:
@@ -156,6 +162,9 @@ def _run(stmts, asg, events, event_of, terminal_yield, descend_loops):
             branch = st.body if eval_struct(literals(st.test), asg) else st.orelse
             _run(branch, asg, events, event_of, terminal_yield, descend_loops)
         elif isinstance(st, (ast.Return, ast.Raise, ast.Continue, ast.Break)):
+            if _OPT['bool_returns'] and isinstance(st, ast.Return) and isinstance(st.value, ast.Name) and isinstance(asg, _Env) and \
+                    st.value.id in asg.flags:
+                raise _Outcome(ast.copy_location(ast.Return(value=ast.Constant(value=bool(asg.flags[st.value.id]))), st))
             if _OPT['bool_returns'] and isinstance(st, ast.Return) and st.value is not None and _boolform(st.value) and \
                     not isinstance(st.value, ast.Constant):
                 raise _Outcome(ast.copy_location(ast.Return(value=ast.Constant(value=bool(eval_struct(literals(st.value), asg)))), st))
